@@ -100,7 +100,7 @@ VerifyObl(e) == <<
 RLQ(e) ==
   LET k == e.cls.kind
       h == HonestRL("registered")
-  IN CASE k \in {"Id", "ResealedHonest", "ReplaySame"} -> h
+  IN CASE k \in {"Id", "IdLong", "ResealedHonest", "ReplaySame"} -> h
        [] k = "ReplayEncOtherKey" -> [h EXCEPT !.aadBound = FALSE]      \* sealed for another request key
        [] k = "ReplayEncFlipped" -> [h EXCEPT !.sealedToMe = FALSE]
        [] k = "Flip" -> RLFlip(h, e.cls.f)
@@ -131,7 +131,8 @@ DetObl(e) == <<
   <<"no-invalid-token", ~e.bad_token>>,
   <<"create-is-pure", \A p \in reqTab : p[1] = Args(e) => p[2] = e.req>>,
   <<"blind-changes-request", \A p \in reqTab : (NoBlind([t |-> p[1][1], key |-> p[1][2], nc |-> p[1][3], salt |-> p[1][5]]) = NoBlind(e)
-                                                /\ p[1][4] # e.blind) => p[2] # e.req>>,
+                                                /\ p[1][4] # e.blind /\ ~p[3] /\ ~e.degenerate) => p[2] # e.req>>,
+  \* (degenerate blinds - zero in any encoding, malformed - are exempt: several names denote the same scalar)
   <<"token-ignores-blind", e.ok => \A p \in tokTab : p[1] = NoBlind(e) => p[2] = e.tok>>,
   \* finalizing the same state again (a retry) gives the same token or an error, never another token
   <<"token-ignores-run", e.refin \in {"none", "same", "error"}>>,
@@ -186,7 +187,7 @@ TNext ==
      IN /\ IF f = {} THEN TRUE ELSE PrintT("REJECT " \o ToString(l) \o " " \o e.op \o " " \o ToString(f))
         /\ CASE e.op = "DetNew" -> reqTab' = {} /\ tokTab' = {} /\ elemTab' = {}
              [] e.op = "Det" /\ e.req # "" ->
-                  /\ reqTab' = reqTab \cup {<<Args(e), e.req>>}
+                  /\ reqTab' = reqTab \cup {<<Args(e), e.req, e.degenerate>>}
                   /\ tokTab' = IF e.ok THEN tokTab \cup {<<NoBlind(e), e.tok>>} ELSE tokTab
                   /\ elemTab' = elemTab \cup {<<<<e.t, e.key, e.elems[i][1], e.elems[i][2]>>, e.elems[i][3]>> : i \in 1..Len(e.elems)}
              [] OTHER -> UNCHANGED <<reqTab, tokTab, elemTab>>
